@@ -112,7 +112,8 @@ fn child() {
 
 fn gen_bytes(rng: &mut Rng, formula: bool) -> Vec<u8> {
     let f_ok = ["H2O", "C6H12O6", "C[13]2H4", "(CH2)3O", "Cl2", "NaCl", "C2(H3)2", "H", "CO2", "N2O4H[2]"];
-    let f_bad = ["", "Xx", "H2O)", "(H", "C[99]", "h2o", "H 2", "C[13", "H9999999999", "é", "C[1x]2", "()", "C[99]O", "CH3C[99]H3", "(H[7]O)2", "O[15](H2)2", "C[99]2O", "S[35]", "C[+13]"];
+    let f_bad = ["", "Xx", "H2O)", "(H", "C[99]", "h2o", "H 2", "C[13", "H9999999999", "é", "C[1x]2", "()", "C[99]O", "CH3C[99]H3", "(H[7]O)2", "O[15](H2)2", "C[99]2O", "S[35]", "C[+13]",
+                 " H2O", "H2O ", "H2O\n", "\tC6H12O6", " ", "H2O\r\n"];
     let s_ok = ["C", "H", "O", "N", "Cl", "C[13]", "H[2]", "Cl[37]", "Na", "C[012]"];
     let s_bad = ["", "X", "C[", "C[99]", "c", "C[13]]", "é", "C[x]", "C[70000]", "C[0]"];
     let mut b: Vec<u8> = if formula { if rng.below(3) == 0 { rng.pick(&f_bad).as_bytes().to_vec() } else { rng.pick(&f_ok).as_bytes().to_vec() } }
